@@ -290,7 +290,10 @@ pub fn dump(out: &str, seed: u64, scenarios: usize) -> Result<Value, String> {
         };
         claim_member(&mut w, &mut d, &mut rows, "p1", &mut rng);
         let steps = rng.random_range(4..9usize);
-        for _ in 0..steps {
+        // every fifth scenario runs with a group context of more than 2^14 bytes (a large extension set by the first
+        // commit): the KDFLabel context then has a four-byte length header
+        let big_ctx = sc % 5 == 2;
+        for step_no in 0..steps {
             let committer = members[rng.random_range(0..members.len())].clone();
             let mut joiners = vec![];
             let res = {
@@ -315,6 +318,11 @@ pub fn dump(out: &str, seed: u64, scenarios: usize) -> Result<Value, String> {
                 }
                 if kind == 2 {
                     b = b.add_external_psk(mls_rs::psk::ExternalPskId::new(b"k2".to_vec())).map_err(|e| format!("{e:?}"))?;
+                }
+                if big_ctx && step_no == 0 {
+                    let mut l = mls_rs::ExtensionList::new();
+                    l.set(mls_rs::Extension::new(crate::replay::GCE_EXT, (0..20_000u32).map(|i| (i % 251) as u8).collect()));
+                    b = b.set_group_context_ext(l).map_err(|e| format!("{e:?}"))?;
                 }
                 b.build().map_err(|e| format!("commit: {e:?}"))?
             };
